@@ -255,7 +255,8 @@ fn(FF, 'coequalizer_universal', kind='free', status='P', props=['C06', 'C05', 'C
    requires=['q.wf()', 'q.table@.len() == 0 ==> q.target == 0', 'lawful_clone::<T>()', 'lawful_eq::<T>()'],
    ensures=[('C06.universal-free-iff', 'r.is_some() <==> (q.table@.len() == f@.len() && constant_on_fibres(q.table@, f@))'),
             ('C06.universal-free-factor', 'r.is_some() ==> (forall|i: int| 0 <= i < q.table@.len() ==> r.unwrap()@[q.table@[i] as int] == f@[i])'),
-            ('C06.universal-free-len', 'r.is_some() && q.table@.len() > 0 ==> r.unwrap()@.len() == q.target')],
+            ('C06.universal-free-len', 'r.is_some() && q.table@.len() > 0 ==> r.unwrap()@.len() == q.target'),
+            ('C06.universal-free-len0', 'r.is_some() && q.table@.len() == 0 ==> r.unwrap()@.len() == 0')],
    proofs=[('after:let table = f.scatter(', '''let qv = q.table@; let fv = f@; let n = qv.len() as int;
             assert forall|i: int| 0 <= i < n implies #[trigger] last_write(qv, qv[i] as int, n) >= i by { lemma_last_write(qv, qv[i] as int, n); }
             '''),
